@@ -15,14 +15,14 @@ def nontrivial(d):
 # the known classes (an unexplained failure in the same case keeps the case a violation).
 
 # F-C17-1: types that contain a `skip_serializing_if` field which is actually skipped in the state reached
-T_BIN_SKIPPED = {"FuelConverter", "Generator", "ElectricDrivetrain", "ElectricDrivetrain.bel", "ReversibleEnergyStorage",
+T_BIN_SKIPPED = {"Locomotive.relaxed", "Locomotive.mu", "LocomotiveSimulation.relaxed", "SpeedLimitTrainSim.mu", "FuelConverter", "Generator", "ElectricDrivetrain", "ElectricDrivetrain.bel", "ReversibleEnergyStorage",
                  "Locomotive.conv", "Locomotive.bel", "Locomotive.hybrid", "Consist", "LocomotiveSimulation", "LocomotiveSimulation.bel",
                  "LocomotiveSimulationVec", "ConsistSimulation", "SetSpeedTrainSim", "SetSpeedTrainSim.default",
                  "Network", "TrainConfig", "TrainSimBuilder", "TrainSimBuilder.init", "TrainSimBuilder.nan"}
 # F-C17-2: types that contain a `Location`
 T_BIN_LOCATION = {"Location", "SpeedLimitTrainSim", "SpeedLimitTrainSim.finished"}
 # F-C17-3: types that contain a non-finite number in the state reached
-T_JSON_NONFINITE = {"PathTpc.finished", "SpeedLimitTrainSim.finished", "SetSpeedTrainSim.default", "TrainSimBuilder.nan"}
+T_JSON_NONFINITE = {"SpeedLimitTrainSim.mu", "PathTpc.finished", "SpeedLimitTrainSim.finished", "SetSpeedTrainSim.default", "TrainSimBuilder.nan"}
 
 
 def _cls(desc, e):
